@@ -272,8 +272,9 @@ func (a *Array) Member(name string) Object {
 
 // Splice an array
 func (a *Array) Splice(n Number) Object {
+	// the removed tail gets its own backing array: a later push on the receiver must not overwrite it
 	right := &Array{
-		items: a.items[int(n):],
+		items: append([]Object(nil), a.items[int(n):]...),
 	}
 	a.items = a.items[:int(n)]
 	return right
@@ -281,8 +282,9 @@ func (a *Array) Splice(n Number) Object {
 
 // Slice an array
 func (a *Array) Slice(n Number) Object {
+	// a copy, as in JavaScript: sorting or pushing to the receiver must not show through the slice
 	return &Array{
-		items: a.items[int(n):],
+		items: append([]Object(nil), a.items[int(n):]...),
 	}
 }
 
